@@ -23,6 +23,18 @@ Proof.
   - intro H. inversion H; subst. split; [reflexivity | congruence].
 Qed.
 
+(* what sendData queues: DATA frames and possibly one RST_STREAM *)
+Definition data_or_rst (o : outev) : Prop := match o with OData _ _ _ | ORst _ _ => True | _ => False end.
+
+Lemma data_or_rst_facts d : Forall data_or_rst d ->
+  (forall sid rq, ~ In (ODispatch sid rq) d) /\ (forall o, In o d -> is_goaway o = None) /\ existsb is_exit d = false.
+Proof.
+  intro F. split; [|split].
+  - intros sid rq H. rewrite Forall_forall in F. exact (F _ H).
+  - intros o H. rewrite Forall_forall in F. specialize (F _ H). destruct o; try contradiction; reflexivity.
+  - induction F as [|o t Ho _ IH]; [reflexivity|]. cbn [existsb]. rewrite IH. destruct o; try contradiction; reflexivity.
+Qed.
+
 Section Send.
 Variable hstate : Type.
 Notation sconn := (sconn hstate).
@@ -48,7 +60,7 @@ Proof. unfold sd. intros ->. reflexivity. Qed.
 
 Lemma send_data_loop_spec fuel : forall c sid n c1 n1 done wres, wr hstate c -> Psnd n ->
   send_data_loop fuel c sid n = (c1, n1, done, wres) ->
-  exists d, sd c c1 d /\
+  exists d, sd c c1 d /\ Forall data_or_rst d /\
     match done, wres with
     | false, _ => filter noisy d = [] /\ wres = false /\ (sn_bodyStream n1 = None -> sn_pendingEnd n1 = true)
     | true, false => exists chunk, filter noisy d = [OData sid true chunk]
@@ -56,7 +68,7 @@ Lemma send_data_loop_spec fuel : forall c sid n c1 n1 done wres, wr hstate c -> 
     end.
 Proof.
   induction fuel as [|fuel IH]; intros c sid n c1 n1 done wres W P; cbn [send_data_loop].
-  - intro H. inversion H; subst. exists []. split; [apply sd_refl|]. split; [reflexivity|]. split; [reflexivity|]. intro B. apply P, B.
+  - intro H. inversion H; subst. exists []. split; [apply sd_refl|]. split; [constructor|]. split; [reflexivity|]. split; [reflexivity|]. intro B. apply P, B.
   - (* the common tail: queue one DATA frame *)
     assert (GO : forall n0, Psnd n0 -> sn_pending n0 <> [] ->
       (let avail := zmin (sn_window n0) (sc_clientWindow c) in
@@ -70,23 +82,24 @@ Proof.
          let c2 := upd_clientWindow c1 (sc_clientWindow c1 - step) in
          let n' := mkSnd (sn_window n0 - step) rest (sn_pendingEnd n0) (sn_bodyStream n0) (sn_bodySize n0) (sn_bodyRead n0) in
          if e then (c2, n', true, false) else send_data_loop fuel c2 sid n') = (c1, n1, done, wres) ->
-      exists d, sd c c1 d /\
+      exists d, sd c c1 d /\ Forall data_or_rst d /\
         match done, wres with
         | false, _ => filter noisy d = [] /\ wres = false /\ (sn_bodyStream n1 = None -> sn_pendingEnd n1 = true)
         | true, false => exists chunk, filter noisy d = [OData sid true chunk]
         | true, true => filter noisy d = [ORst sid c_InternalError]
         end).
     { intros n0 P0 NE. cbv zeta. destruct (_ <=? 0)%Z.
-      - intro H. inversion H; subst. exists []. split; [apply sd_refl|]. split; [reflexivity|]. split; [reflexivity|].
+      - intro H. inversion H; subst. exists []. split; [apply sd_refl|]. split; [constructor|]. split; [reflexivity|]. split; [reflexivity|].
         intro B. apply P0, B.
       - rewrite (emit_wr hstate c _ W).
         match goal with |- context [note c (OData sid ?e ?ch)] => set (ee := e); set (chunk := ch) end.
         match goal with |- context [upd_clientWindow (note c _) ?w] => set (ww := w) end.
         pose proof (sd_note_cw c (OData sid ee chunk) ww) as S1.
         destruct ee eqn:EE.
-        + intro H. inversion H; subst. exists [OData sid true chunk]. split; [exact S1|]. exists chunk. reflexivity.
+        + intro H. inversion H; subst. exists [OData sid true chunk]. split; [exact S1|]. split; [repeat constructor|]. exists chunk. reflexivity.
         + intro H. apply IH in H.
-          * destruct H as (d & S2 & M). exists (d ++ [OData sid false chunk]). split; [eapply sd_trans; eassumption|].
+          * destruct H as (d & S2 & FD & M). exists (d ++ [OData sid false chunk]). split; [eapply sd_trans; eassumption|].
+            split; [apply Forall_app; split; [exact FD | repeat constructor]|].
             rewrite filter_app. cbn [filter noisy strip_late]. rewrite app_nil_r. exact M.
           * eapply sd_wr; eassumption.
           * intro B. cbn [sn_bodyStream sn_pendingEnd sn_pending] in *. destruct (P0 B) as [PE _]. split; [exact PE|].
@@ -97,10 +110,10 @@ Proof.
         -- destruct (refill_pending_spec n nr RF) as [_ R2]. destruct R2 as [R2 R3]; [congruence|].
            destruct (sn_pending nr) as [|q0 qt] eqn:EQ.
            ++ intro H. inversion H; subst. rewrite (R3 EP eq_refl). rewrite (emit_wr hstate c _ W).
-              exists [OData sid true []]. split; [apply sd_note|]. exists []. reflexivity.
+              exists [OData sid true []]. split; [apply sd_note|]. split; [repeat constructor|]. exists []. reflexivity.
            ++ rewrite <- EQ. apply GO; [intro B; congruence | congruence].
         -- intro H. inversion H; subst. unfold write_reset. rewrite (emit_wr hstate c _ W).
-           exists [ORst sid c_InternalError]. split; [apply sd_note | reflexivity].
+           exists [ORst sid c_InternalError]. split; [apply sd_note|]. split; [repeat constructor | reflexivity].
       * destruct (P EB) as [_ X]. congruence.
     + rewrite <- EP. apply GO; [exact P | congruence].
 Qed.
@@ -111,7 +124,7 @@ Definition send_ok (s : stream) : Prop := has_more_to_send s = true -> st_bodySt
    the reset mark; finished exactly with END_STREAM or RST_STREAM as the last frame *)
 Lemma send_data_spec c s c1 s1 fin : wr hstate c -> has_more_to_send s = true -> send_ok s ->
   send_data c s = (c1, s1, fin) ->
-  exists d, sd c c1 d /\
+  exists d, sd c c1 d /\ Forall data_or_rst d /\
     st_id s1 = st_id s /\ st_state s1 = st_state s /\ st_headersFinished s1 = st_headersFinished s /\
     st_responded s1 = st_responded s /\ st_handlerRunning s1 = st_handlerRunning s /\ st_orig s1 = st_orig s /\
     (if fin then
@@ -124,8 +137,8 @@ Proof.
   assert (P : Psnd (get_snd s)).
   { intro B. cbn in B. split; [apply SO; assumption|]. cbn. unfold has_more_to_send in HM. rewrite B in HM.
     destruct (st_pending s); [discriminate | congruence]. }
-  destruct (send_data_loop_spec _ _ _ _ _ _ _ _ W P L) as (d & S & M).
-  intro H. inversion H; subst. exists d. split; [exact S|].
+  destruct (send_data_loop_spec _ _ _ _ _ _ _ _ W P L) as (d & S & FD & M).
+  intro H. inversion H; subst. exists d. split; [exact S|]. split; [exact FD|].
   destruct fin.
   - destruct wres; cbn; repeat split; auto.
     destruct M as [chunk M]. left. exists chunk. auto.
